@@ -10,6 +10,12 @@ make(pickled), make(gzip-pickled), make, [clear_object, deref]) on the real lazy
 and on an eager mirror interpreter that does not import lazy_fns; compared
 after every step: value (or exception), the ordered log of fixture calls
 (evaluation count and order), cache_info(), object_info(), object identity.
+Non-value-equal constants (fixtures_lazy.opaque: a list of plain instances
+without __eq__, a numpy array, a dict of one, plain and traced - unhashable
+and not equal to their own serialised copy, so that only the persistent id
+identifies a copy of a cached call): the same trees over these leaves with
+<= 2 call nodes; they and all trees with <= 2 call nodes run the long history
+(..., the same pickle bytes again, the pickle of the unpickled copy, make).
 
 Part 2 (cache histories, explicit-state BFS): (a) func_utils.LruCache with
 maxsize 1..3 under getitem/get/set/insert/clear, stored values including the
@@ -17,7 +23,9 @@ falsy None, 0, ''; (b) the lazy layer with the LruCache instance behind
 LazyFn.result_ bounded to 2..3, over make(e_i) for 4
 cached expressions, clear_cache and an uncached twin, directly and through
 pickled bytes, six expression families (one of cached calls whose value is
-None); (c) the object registry behind handles bounded to 1..2 under
+None) plus three over non-value-equal constants, also "recopied" (each make
+sends the pickle of a copy of the copy sent before) and "retraced" (by-value
+families: each make traces the call anew and sends its pickle); (c) the object registry behind handles bounded to 1..2 under
 new-handle / deref / use / clear, handles made by lazy_result_ (values: fresh
 lists; None) and by LazyObject.new(None) / LazyObject.new(0);
 (d) one structured family at the shipped bound 128.  A state is the operation
@@ -36,6 +44,18 @@ LEVEL = 'model_checking'
 
 FLAGS = ('', 'c', 'l')
 LEAVES = (('c', 1), ('lc', 1), ('c', [3]))
+# leaf alphabets by name; the 'opaque*' ones hold constants that are unhashable
+# AND not value-equal across serialised copies (fixtures_lazy.opaque): a list
+# of plain instances without __eq__, a numpy array, plain and traced, a dict
+LEAF_SETS = {
+    'base': LEAVES,
+    'one': LEAVES[:1],
+    'opaque': (('c', 1), ('k', 'toks'), ('k', 'arr'), ('lk', 'toks')),
+    'opaque6': (('c', 1), ('k', 'toks'), ('k', 'arr'), ('lk', 'toks'),
+                ('lk', 'arr'), ('k', 'dtok')),
+    'opaque2': (('c', 1), ('k', 'toks')),
+}
+PICKLED_STEPS = ('make_p', 'make_z', 'make_p2', 'make_pp')
 
 
 # ---------------------------------------------------------------------------
@@ -56,8 +76,12 @@ def build(ast, memo, env=None):
   t = ast[0]
   if t == 'c':
     return ast[1]
+  if t == 'k':
+    return fx.opaque(ast[1])
   if t == 'lc':
     r = lf.trace(ast[1])
+  elif t == 'lk':
+    r = lf.trace(fx.opaque(ast[1]))
   elif t == 'f':
     r = lf.trace(getattr(fx, ast[1]))
   elif t == 'v':
@@ -100,7 +124,7 @@ def _err(e):
   return ('err', type(e).__name__)
 
 
-_IDENT_TYPES = (list, dict, fx.Acc)
+_IDENT_TYPES = (list, dict, fx.Acc, fx.np.ndarray)
 
 
 def _impl_infos():
@@ -209,9 +233,27 @@ class TreeGen:
 
 
 def all_trees(spec):
-  """spec: [(depth, min calls, max calls, number of leaf kinds), ...]."""
-  for d, kmin, kmax, nleaves in spec:
-    yield from TreeGen(LEAVES[:nleaves]).trees(d, kmin, kmax)
+  """spec: [(depth, min calls, max calls, leaf alphabet, long history), ...].
+
+  Yields (tree, long history?).  Of an 'opaque*' alphabet only the trees that
+  hold at least one such constant (the others are in the base alphabets).
+  """
+  for d, kmin, kmax, leaves, ext in spec:
+    for ast in TreeGen(LEAF_SETS[leaves]).trees(d, kmin, kmax):
+      if not leaves.startswith('opaque') or _has_opaque(ast):
+        yield ast, ext
+
+
+def _has_opaque(ast):
+  t = ast[0]
+  if t in ('k', 'lk'):
+    return True
+  if t == 'call':
+    return (_has_opaque(ast[1]) or any(_has_opaque(a) for a in ast[2])
+            or any(_has_opaque(v) for _, v in ast[3]))
+  if t in ('attr', 'item'):
+    return _has_opaque(ast[1])
+  return False
 
 
 def _has_flag(ast, flag):
@@ -238,11 +280,17 @@ def _mentions(ast, name, under_cached=False):
   return False
 
 
-def tree_steps(ast):
+def tree_steps(ast, ext=False):
+  """make_p: fresh pickle; make_z: gzip pickle; (long history) make_p2: the
+  very bytes of make_p sent again; make_pp: a pickled copy of the unpickled
+  copy (second generation)."""
   steps = ['make', 'make']
   if _has_flag(ast, 'c'):
     steps += ['clear', 'make', 'make']
-  steps += ['make_p', 'make_z', 'make']
+  steps += ['make_p', 'make_z']
+  if ext:
+    steps += ['make_p2', 'make_pp']
+  steps += ['make']
   if ast[0] == 'call' and ast[4] == 'l':
     steps += ['clear_obj', 'deref_last']
   return steps
@@ -261,7 +309,7 @@ def _ref_history(ast, steps):
     n0 = len(fx.CALLS)
     v, o = None, None
     try:
-      if kind in ('make', 'make_p', 'make_z'):
+      if kind == 'make' or kind in PICKLED_STEPS:
         v = m.make(ast)
       elif kind == 'clear':
         m.clear_cache()
@@ -287,7 +335,7 @@ def _impl_history(ast, steps):
   lf.clear_cache()
   lf.clear_object()
   expr = build(ast, {})
-  out, last = [], None
+  out, last, payload = [], None, None
   for kind in steps:
     n0 = len(fx.CALLS)
     v, o = None, None
@@ -295,7 +343,13 @@ def _impl_history(ast, steps):
       if kind == 'make':
         v = lf.maybe_make(expr)
       elif kind == 'make_p':
-        v = lf.maybe_make(lf.pickler.dumps(expr))
+        payload = lf.pickler.dumps(expr)
+        v = lf.maybe_make(payload)
+      elif kind == 'make_p2':
+        v = lf.maybe_make(payload)
+      elif kind == 'make_pp':
+        payload = lf.pickler.dumps(lf.pickler.loads(payload))
+        v = lf.maybe_make(payload)
       elif kind == 'make_z':
         v = lf.maybe_make(lf.pickler.loadz(lf.pickler.dumpz(expr)))
       elif kind == 'clear':
@@ -347,14 +401,16 @@ def _tree_sig(ast, kind, what, got):
   if (what == 'raises-AttributeError'
       and "has no attribute 'id'" in str(got['out'][-1])):
     return 'C17:LazyObject.__eq__:AttributeError:traced-vs-plain-value'
-  if (kind in ('make_p', 'make_z') and _mentions(ast, 'SCALE3')
+  if (kind in PICKLED_STEPS and _mentions(ast, 'SCALE3')
       and got['info'][1] > 0):
     return 'C17:make-after-pickle:cache-miss:traced-instance-in-cached-call'
+  if _has_opaque(ast):
+    return f'C17:tree:{kind}:{what}:non-value-equal-constant'
   return f'C17:tree:{kind}:{what}'
 
 
-def check_tree(st, ast):
-  steps = tree_steps(ast)
+def check_tree(st, ast, ext=False):
+  steps = tree_steps(ast, ext)
   st.case()
   exp = _ref_history(ast, steps)
   got = _impl_history(ast, steps)
@@ -368,7 +424,7 @@ def check_tree(st, ast):
       st.violation(sig,
                    {'tree': ast, 'steps': steps[:i + 1], 'step': i,
                     'expected': e, 'observed': g},
-                   replay={'part': 'tree', 'ast': ast})
+                   replay={'part': 'tree', 'ast': ast, 'ext': ext})
       return False
   return True
 
@@ -376,10 +432,15 @@ def check_tree(st, ast):
 def _tree_unit(args):
   spec, r, n = args
   st = Stats()
-  for ast in itt.islice(all_trees(spec), r, None, n):
-    ok = check_tree(st, ast)
+  for ast, ext in itt.islice(all_trees(spec), r, None, n):
+    ok = check_tree(st, ast, ext)
     if ok and st.evaluations % 5000 == 1:
-      st.sample({'part': 'tree', 'tree': ast, 'history': tree_steps(ast)})
+      st.sample({'part': 'tree', 'tree': ast,
+                 'history': tree_steps(ast, ext)})
+    if _has_opaque(ast):
+      st.count('trees_with_non_value_equal_constant')
+      if _has_flag(ast, 'c'):
+        st.count('trees_with_cached_call_over_non_value_equal_constant')
     if _has_flag(ast, 'c'):
       st.count('trees_with_cached_call')
     if _has_flag(ast, 'l'):
@@ -536,7 +597,28 @@ def families():
   e0, e1 = _s(c(0), 'c'), _s(c(1), 'c')
   a0 = _call(('f', 'Acc'), [c(0)], [], 'c')
   n0 = _s(c(0), 'c', 'nothing')
+  k = lambda name: ('k', name)
+  o0, o1 = _s(k('tok:0'), 'c'), _s(('lk', 'tok:1'), 'c')
   return {
+      # unhashable arguments that are not value-equal across serialised
+      # copies (only the persistent id tells that a copy is the same call):
+      # a list of plain instances, a numpy array, a traced such list, a dict
+      'opaque': ([o0, _s(k('arr:1'), 'c'), _s(('lk', 'tok:2'), 'c'),
+                  _s(k('dtok'), 'c')], _s(k('tok:0'), '')),
+      # the same below / next to by-value keys: cached calls over id-keyed
+      # cached calls (positional, keyword), a numpy array next to one
+      'opaque_nested': ([o0, o1,
+                         _call(('f', 'mkdict'), [o0], [('k', o1)], 'c'),
+                         _call(('f', 'mkdict'), [k('arr:0')], [('k', o0)],
+                               'c')],
+                        _call(('f', 'mkdict'), [o0], [('k', o1)], '')),
+      # by-value keys over traced non-value-equal constants (the constant is
+      # identified by its persistent id, the call by value)
+      'opaque_traced': ([_s(('lk', 'tok:0'), 'c'), _s(('lk', 'arr:1'), 'c'),
+                         _call(('f', 'mkdict'), [('lk', 'tok:0')],
+                               [('k', ('lk', 'arr:1'))], 'c'),
+                         _s(_s(('lk', 'tok:0'), 'c'), 'c')],
+                        _s(('lk', 'tok:0'), '')),
       # by-value keys
       'flat': ([_s(c(i), 'c') for i in range(4)], _s(c(0), '')),
       # unhashable argument: keyed by the identity of the call object
@@ -590,6 +672,8 @@ class LazySystem:
     self.name, self.maxsize, self.mode = name, maxsize, mode
     self.asts, self.twin = families()[name]
     self.memo = {}
+    self.gens = {}
+    self.leaf_memo = {}
     self.exprs = [build(a, self.memo) for a in self.asts]
     self.twin_expr = build(self.twin, self.memo)
     self.ref_labels = _labels(self.asts)
@@ -618,11 +702,35 @@ class LazySystem:
       walk(a)
     return found
 
+  def label(self, labels, key):
+    # retraced call objects have fresh ids: entries are told apart by value
+    return '?' if self.mode == 'retraced' else labels.get(key, '?')
+
   def ops(self):
     return [('make', i) for i in range(4)] + [('clear',), ('twin',)]
 
-  def _make(self, expr):
+  def _make(self, expr, slot=None, cur=None):
     lf = _lf()
+    if self.mode == 'recopied':
+      # generation g of the expression at its g-th make: the bytes of a copy
+      # of the copy that was sent last time (first time: of the original)
+      # (the bytes of generation g are made once per system and re-sent)
+      g = cur[slot] = cur.get(slot, -1) + 1
+      gens = self.gens.setdefault(slot, [])
+      while len(gens) <= g:
+        gens.append(lf.pickler.dumps(
+            lf.pickler.loads(gens[-1]) if gens else expr))
+      return lf.maybe_make(gens[g])
+    if self.mode == 'retraced':
+      # the call is traced anew for every make (new call objects, new ids)
+      # over the same traced callables / constants, and sent pickled: a call
+      # keyed by value is the same cache entry
+      ast = self.twin if slot == 'twin' else self.asts[slot]
+      memo = dict(self.leaf_memo)
+      expr = build(ast, memo)
+      self.leaf_memo.update((k, v) for k, v in memo.items()
+                            if k.startswith(("('lc', ", "('lk', ", "('f', ")))
+      return lf.maybe_make(lf.pickler.dumps(expr))
     if self.mode == 'pickled':
       return lf.maybe_make(lf.pickler.dumps(expr))
     if self.mode == 'gzip':
@@ -651,7 +759,7 @@ class LazySystem:
       last[slot] = v
       obs = {'out': o, 'calls': list(fx.CALLS[n0:]), 'info': m.fns.info(),
              'same': same, 'obj': None,
-             'order': [(self.ref_labels.get(k, '?'), repr(_norm_ref(m, x)))
+             'order': [(self.label(self.ref_labels, k), repr(_norm_ref(m, x)))
                        for k, x in m.fns.d.items()]}
     return obs, fx.STATE['n']
 
@@ -661,15 +769,15 @@ class LazySystem:
     lf.clear_cache()
     lf.clear_object()
     cache = _caches()[0]
-    last, obs = {}, None
+    last, obs, cur = {}, None, {}
     for op in history:
       n0 = len(fx.CALLS)
       v, slot = None, op[0] if op[0] != 'make' else op[1]
       try:
         if op[0] == 'make':
-          v = self._make(self.exprs[op[1]])
+          v = self._make(self.exprs[op[1]], slot, cur)
         elif op[0] == 'twin':
-          v = self._make(self.twin_expr)
+          v = self._make(self.twin_expr, slot, cur)
         else:
           lf.clear_cache()
         o = ('ok', _norm_impl(v))
@@ -682,7 +790,7 @@ class LazySystem:
       last[slot] = v
       obs = {'out': o, 'calls': list(fx.CALLS[n0:]),
              'info': _impl_infos()[0], 'same': same, 'obj': None,
-             'order': [(self.impl_labels.get(getattr(k, 'id', None), '?'),
+             'order': [(self.label(self.impl_labels, getattr(k, 'id', None)),
                         repr(_norm_impl(cache.data[k]))) for k in cache]}
     return obs, fx.STATE['n']
 
@@ -704,6 +812,8 @@ class LazySystem:
         sig = 'C17:LazyObject.__eq__:AttributeError:traced-vs-plain-value'
       else:
         sig = f'C17:lazy-cache:{op[0]}:{what}'
+        if self.name.startswith('opaque'):
+          sig += ':non-value-equal-constant'
       st.violation(sig, {'family': self.name, 'maxsize': self.maxsize,
                          'mode': self.mode, 'history': history,
                          'expressions': self.asts, 'twin': self.twin,
@@ -897,7 +1007,11 @@ def _bound_unit(args):
   st = Stats()
   lf = _lf()
   from ml_metrics._src.utils import func_utils
-  asts = [_s(('c', i), 'c') for i in range(128 + 3)]
+  opaque = layer.endswith('-opaque')
+  # (-opaque: keyed by persistent id, argument a list of one plain instance)
+  asts = [_s(('k', f'tok:{i}') if opaque else ('c', i), 'c')
+          for i in range(128 + 3)]
+  index = {lazy_ref.cache_key(a): i for i, a in enumerate(asts)}
   memo = {}
   exprs = [build(a, memo) for a in asts]
   for h in hs:
@@ -928,12 +1042,13 @@ def _bound_unit(args):
       for i in h:
         m.make(asts[i])
       exp_calls, exp_info = list(fx.CALLS), m.fns.info()
-      exp_order = [k[2][0][1] for k in m.fns.d]
+      exp_order = [index[k] for k in m.fns.d]
       fx.reset()
       for i in h:
         lf.maybe_make(exprs[i] if layer == 'lazy' else
                       lf.pickler.dumps(exprs[i]))
-      got_order = [k.args[0] for k in _caches()[0]]
+      got_order = [k.args[0][0].name if opaque else k.args[0]
+                   for k in _caches()[0]]
       if list(fx.CALLS) != exp_calls:
         bad = (next((j for j, (a, b) in enumerate(zip(fx.CALLS, exp_calls))
                      if a != b), min(len(fx.CALLS), len(exp_calls))),
@@ -958,7 +1073,14 @@ def _bound_unit(args):
 
 def run(ctx):
   quick = ctx.quick
-  spec = [(2, 1, 3, 3)] if quick else [(3, 1, 3, 3), (3, 4, 4, 1)]
+  # (depth, min calls, max calls, leaf alphabet, long history)
+  if quick:
+    spec = [(2, 1, 2, 'base', True), (2, 3, 3, 'base', False),
+            (2, 1, 2, 'opaque', True)]
+  else:
+    spec = [(3, 1, 2, 'base', True), (3, 3, 3, 'base', False),
+            (3, 4, 4, 'one', False), (3, 1, 2, 'opaque6', True),
+            (2, 3, 3, 'opaque2', True)]
   depth = 6 if quick else 7
   n_units = 64 if quick else 256
   ctx.rule = (
@@ -972,20 +1094,45 @@ def run(ctx):
       "access ['k'],['p'], every flag in {none, cache_result_, lazy_result_} "
       'per call node; each tree through the history make, make [, '
       'clear_cache, make, make], make(pickle), make(gzip pickle), make [, '
-      'clear_object, deref]. HISTORIES (BFS, all operation sequences up to depth '
+      'clear_object, deref]; NON-VALUE-EQUAL CONSTANTS (unhashable and not '
+      'equal to their own serialised copy, so only the persistent id '
+      'identifies a copy of a cached call): the same trees with '
+      + ('depth <= 2 and <= 2 call nodes over leaves {1, [Tok a, Tok b] (plain'
+         ' instances without __eq__), numpy array [1 2 3], trace([Tok a, Tok '
+         'b])}' if quick else
+         'depth <= 3 and <= 2 call nodes over leaves {1, [Tok a, Tok b] (plain'
+         ' instances without __eq__), numpy array [1 2 3], trace(either), '
+         '{t: Tok d}}, and depth <= 2 with exactly 3 call nodes over {1, [Tok '
+         'a, Tok b]},') + ' holding at least one such leaf; these and all '
+      'trees with <= 2 call nodes go through the long history: ..., '
+      'make(pickle), make(gzip pickle), make(the same pickle bytes again), '
+      'make(pickle of the unpickled copy), make. HISTORIES (BFS, all operation sequences up to depth '
       f'{depth} ({depth + 1} for LruCache), deduplicated by canonical '
       'observable state): LruCache maxsize 1..3 x 20 operations (getitem/get/'
       "set/insert x 4 keys, set of None / 0 / '' under one key, clear);"
       ' lazy layer cache bounded to 2..3 x {make(e0..e3), clear_cache, '
       'make(uncached twin)} x 6 expression families (one of None-valued cached'
-      ' calls) x {direct, pickled}'
-      + ('' if quick else ' and bounded to 1..2 through gzip pickles') + '; '
+      ' calls) x {direct, pickled}, and bounded to '
+      + ('2' if quick else '2..3') + ' x recopied (every make of an '
+      'expression sends the pickle of a copy of the copy sent before); 2 '
+      'families of cached calls over non-value-equal constants (stamp([Tok]),'
+      ' stamp(array), stamp(trace([Tok])), stamp({t: Tok}); by-value cached '
+      'calls over such calls) bounded to 2..3 x pickled, 3 x recopied'
+      + ('' if quick else ', 2 x {recopied, direct}')
+      + '; retraced (every make traces the call anew over the same traced '
+      'callables and constants and sends its pickle; by-value families only)'
+      ' bounded to 2 x {'
+      + ('nested, traced_const' if quick else 'every by-value family')
+      + ', cached calls over traced non-value-equal constants (stamp(trace('
+      '[Tok])), stamp(trace(array)), mkdict of both, stamp of cached stamp)}'
+      + ('' if quick else '; all 8 bounded to 1..2 through gzip pickles')
+      + '; '
       'handle registry bounded to 1..2 x {new, deref, use x 3 slots, '
       'clear_object} x {direct, pickled} x {handles of lazy_result_ stamp(j); '
       'handles of lazy_result_ nothing(0), LazyObject.new(None), '
       'LazyObject.new(0)}; bound 128: fill, touch every '
       'ordered subset of the oldest 3, overflow by 1..3, probe, on LruCache /'
-      ' lazy / lazy pickled. distinct = distinct tree or distinct '
+      ' lazy / lazy pickled / lazy pickled with arguments [Tok i]. distinct = distinct tree or distinct '
       '(system, history); every case is non-trivial')
   ctx.assumptions += [
       'fixtures live in an importable module so that cloudpickle pickles them '
@@ -993,6 +1140,9 @@ def run(ctx):
       'a cached call is keyed by value (callee, arguments; flags ignored) when'
       ' its direct plain arguments are hashable, else by the persistent id of '
       'the call object; equal sub-tuples of one tree are built as one object',
+      'the persistent id of a call object survives serialisation: every copy '
+      '(of a copy) of a cached call is the same cache entry even when its '
+      'arguments are neither hashable nor equal to their copies',
       'LruCache: overwriting an existing key replaces the value without '
       'refreshing its recency (cannot happen through the lazy layer); '
       'cache_clear resets hits/misses like functools.lru_cache',
@@ -1012,11 +1162,25 @@ def run(ctx):
     ctx.pmap(_tree_unit,
              ctx.shuffled((spec, r, n_units) for r in range(n_units)))
     ctx.notes['trees'] = ctx.evaluations - 3
-  lazy_units = [(name, m, mode, depth) for name in sorted(families())
-                for m in (2, 3) for mode in ('direct', 'pickled')]
-  if not quick:
-    lazy_units += [(name, m, 'gzip', depth) for name in sorted(families())
-                   for m in (1, 2)]
+  lazy_units = []
+  for name in sorted(families()):
+    by_value = name not in ('by_id', 'opaque', 'opaque_nested')
+    if name == 'opaque_traced':
+      combos = [(2, 'retraced')]
+      if not quick:
+        combos += [(3, 'retraced'), (2, 'pickled'), (3, 'recopied')]
+    elif name.startswith('opaque'):
+      combos = [(2, 'pickled'), (3, 'pickled'), (3, 'recopied')]
+      if not quick:
+        combos += [(2, 'recopied'), (2, 'direct')]
+    else:
+      combos = [(m, mode) for m in (2, 3) for mode in ('direct', 'pickled')]
+      combos += [(m, 'recopied') for m in ((2,) if quick else (2, 3))]
+      if by_value and (not quick or name in ('nested', 'traced_const')):
+        combos.append((2, 'retraced'))
+    if not quick:
+      combos += [(m, 'gzip') for m in (1, 2)]
+    lazy_units += [(name, m, mode, depth) for m, mode in combos]
   hs = list(_bound_histories())
   units = []
   if on('lazy'):
@@ -1028,7 +1192,7 @@ def run(ctx):
               for mode in ('direct', 'pickled') for kind in ('stamp', 'none')]
   if on('bound'):
     units += [('bound', (layer, chunk)) for layer in
-              ('LruCache', 'lazy', 'lazy-pickled')
+              ('LruCache', 'lazy', 'lazy-pickled', 'lazy-pickled-opaque')
               for chunk in enums.chunks(hs, 3)]
   ctx.pmap(_part2_unit, ctx.shuffled(units))
 
@@ -1044,7 +1208,7 @@ def replay(ctx, data):
   part = r['part']
   tup = lazy_ref._tup  # pylint: disable=protected-access
   if part == 'tree':
-    check_tree(ctx, _detuple_consts(tup(r['ast'])))
+    check_tree(ctx, _detuple_consts(tup(r['ast'])), r.get('ext', False))
   elif part == 'flags':
     ctx.merge(_flags_unit(0))
   elif part == 'lru':
@@ -1065,7 +1229,7 @@ def _detuple_consts(ast):
   t = ast[0]
   if t == 'c':
     return ('c', list(ast[1]) if isinstance(ast[1], tuple) else ast[1])
-  if t in ('lc', 'f', 'v'):
+  if t in ('lc', 'f', 'v', 'k', 'lk'):
     return ast
   if t in ('attr', 'item'):
     return (t, _detuple_consts(ast[1]), ast[2])
